@@ -1184,6 +1184,9 @@ class Translator:
                 return pad + tup(["s"] + [self.coerce(env["locals"][a], t, None, f"loop variable {a}") for a, t in fr[1]])
             raise AssertionError(fr)
         st, rest = stmts[0], stmts[1:]
+        split = self.split_tuple_assign(st)
+        if split is not None:
+            return self.seq(split + list(rest), env, k, ind)
         kk = (("stmts", rest),) + k if rest else k
         if self.noop(st, env):
             return self.seq(rest, env, k, ind)
@@ -1350,8 +1353,47 @@ class Translator:
             bad(st, f"call {ast.unparse(f)}(...)")
         bad(st, f"statement {type(st).__name__}")
 
+    @staticmethod
+    def split_tuple_assign(st):
+        """`a, b = e1, e2` -> [`a = e1`, `b = e2`] when that is the same thing: Python evaluates the whole right-hand
+        side first, so no target of an earlier element (a name, or the attribute it names) may occur in a later
+        right-hand side; call-free right-hand sides only.  None when `st` is not such a statement."""
+        if not (isinstance(st, ast.Assign) and len(st.targets) == 1 and isinstance(st.targets[0], ast.Tuple)
+                and isinstance(st.value, ast.Tuple) and len(st.targets[0].elts) == len(st.value.elts) >= 2):
+            return None
+        tgts, vals = st.targets[0].elts, st.value.elts
+        seen = []
+        for t_, v_ in zip(tgts, vals):
+            if not (isinstance(t_, ast.Name) or is_self(t_)):
+                return None
+            if any(isinstance(x, ast.Call) and not (isinstance(x.func, ast.Name) and x.func.id == "len")
+                   for x in ast.walk(v_)):
+                return None
+            for x in ast.walk(v_):
+                for prev in seen:
+                    if isinstance(prev, ast.Name) and isinstance(x, ast.Name) and x.id == prev.id:
+                        return None
+                    if is_self(prev) and is_self(x) and x.attr == prev.attr:
+                        return None
+            seen.append(t_)
+        return [ast.copy_location(ast.Assign(targets=[t_], value=v_), st) for t_, v_ in zip(tgts, vals)]
+
     def loop(self, st, rest, env, k, ind):
         pad = "  " * ind
+        idx_name = None
+        if (isinstance(st.target, ast.Tuple) and len(st.target.elts) == 2
+                and all(isinstance(e_, ast.Name) for e_ in st.target.elts)
+                and isinstance(st.iter, ast.Call) and isinstance(st.iter.func, ast.Name) and st.iter.func.id == "enumerate"
+                and "enumerate" not in env["locals"] and 1 <= len(st.iter.args) <= 2
+                and all(isinstance(a_, ast.Constant) for a_ in st.iter.args[1:])
+                and all(kw.arg == "start" and isinstance(kw.value, ast.Constant) for kw in st.iter.keywords)):
+            # `for i, w in enumerate(l[, start])`: the same loop over l; the index is opaque (usable in messages only)
+            idx_name = st.target.elts[0].id
+            st = ast.copy_location(ast.For(target=st.target.elts[1], iter=st.iter.args[0], body=st.body,
+                                           orelse=st.orelse), st)
+            if any(isinstance(x, ast.Name) and x.id == idx_name and isinstance(x.ctx, ast.Store)
+                   for b_ in st.body for x in ast.walk(b_)):
+                bad(st, "loop index re-assigned in the body")
         if st.orelse or not isinstance(st.target, ast.Name):
             bad(st, "for-else / unpacking loop target")
         for n in ast.walk(st):
@@ -1376,6 +1418,8 @@ class Translator:
         lv = f"v_{st.target.id}"
         loc = dict(env["locals"])
         loc[st.target.id] = (lv if it[1] == "items" else "()", "item" if it[1] == "items" else "opaque")
+        if idx_name is not None:
+            loc[idx_name] = ("()", "opaque")
         head = [f"{pad}    let s : PyS := {proj('acc', 0, n)}"] if n > 1 else []
         for i, (a, t) in enumerate(accs):
             loc[a] = (f"v_{a}", t)
@@ -1400,6 +1444,8 @@ class Translator:
             out.append(f"{pad}let v_{a} : {LEAN_T[t]} := {proj('acc', i + 1, n)}")
             loc2[a] = (f"v_{a}", t)
         loc2.pop(st.target.id, None)       # the loop variable is not used afterwards (unbound after an empty loop)
+        if idx_name is not None:
+            loc2.pop(idx_name, None)
         for a in assigned:
             if a not in env["locals"]:
                 loc2.pop(a, None)
